@@ -802,7 +802,13 @@ pub fn generate(profile: &str, variant: &str, seed: u64, index: u64) -> SimScena
             mprotect_faults(&mut rng, &mut pol, &mut classes, &mut opts, 6);
             let l = gen_layout(&mut rng, arch, os, &pol, &opts);
             let mut ops = Vec::new();
-            for _ in 0..(4 + rng.below(12)) {
+            // rarely: several hundred fakes alive at once (anything kept per installation in a
+            // bounded table or pool overflows)
+            let mass = rng.chance(1, 1500);
+            if mass {
+                classes.push("mass-installs".into());
+            }
+            for _ in 0..(if mass { 300 + rng.below(200) } else { 4 + rng.below(12) }) {
                 let kind = *rng.pick(&["raw", "raw", "raw", "checked", "boolean"]);
                 let fake = gen_fake32(&mut rng, &mut classes);
                 ops.push(Install { target: rng.below(l.targets.len() as u64) as usize, kind: kind.into(), fake, value: rng.chance(1, 2) });
